@@ -407,6 +407,20 @@ impl World {
             }
         }
         if mode == "c01" { return out; }
+        // directed: a peering hop field moved behind a segment change (finding
+        // C13-peer-link-segment-change): up-segment hop fields [leaf, X regular] as segment 0,
+        // [X peering hop, Y peering hop] as segment 1, both against construction direction
+        let mut made = 0;
+        for (s, d, pp, _) in self.paths.iter().filter(|p| p.2.uses_peering() && p.2.lens.len() == 2 && p.2.lens[0] == 2) {
+            if made >= 1 || out.len() >= budget { break; }
+            let Some((_, _, r, _)) = self.paths.iter().find(|q| q.0 == *s && !q.2.uses_peering() && q.2.lens[0] >= 2 && q.2.hops[0] == pp.hops[0] && q.2.infos[0].flags & 1 == 0) else { continue };
+            let q = Pkt { src: *s, dst: *d, ci: 0, ch: 0, lens: vec![2, 2],
+                infos: vec![r.infos[0].clone(), Info { flags: 0, segid: pp.infos[0].segid, ts: pp.infos[0].ts }],
+                hops: vec![r.hops[0].clone(), r.hops[1].clone(), pp.hops[1].clone(), pp.hops[2].clone()] };
+            let c = self.case(&self.topo, &self.real, now, *s, 0, q, 2, "peer_xover_splice".into(), vec![]);
+            if c.out.end == 4 { continue; }
+            out.push(c); made += 1;
+        }
         // mutated packets
         let mut guard = 0;
         while out.len() < budget && guard < budget * 20 {
